@@ -30,14 +30,19 @@ Inductive kobs := KNone | KRaw (b : bytes) | KSum (head : bytes) (n ck : N).
       0 none; 1 a good answer; 2 a truncated answer; 3 an answer whose question
       has another name; 4 ... another type; 5 ... another class; 6 an answer
       without question section.
-    [HFlush]: GET /flush on the plugin's API. *)
-Inductive hop := HQ (q : qd) (kind : N) (replace : bool) | HFlush.
+    [HFlush]: GET /flush on the plugin's API. [HDump]: GET /dump, the body is
+    kept. [HReload fresh]: POST /load_dump with the last body, into the same Cache
+    or ([fresh]) into a new one that replaces it (a restart). *)
+Inductive hop := HQ (q : qd) (kind : N) (replace : bool) | HFlush | HDump | HReload (fresh : bool).
 
 (** Steps of a redirect + lazy cache run.
     [LAsk n]: a query for name n through the whole chain, then every lazy update
     in flight is joined. [LAge n]: the entry under key(n) is made 400 s older
-    (the answers' TTL is 300 s, the lazy TTL a day). *)
-Inductive lop := LAsk (n : N) | LAge (n : N).
+    (the answers' TTL is 300 s, the lazy TTL a day). [LAskF n mode]: like [LAsk n],
+    but a background (lazy) update started by it does not land: the upstream
+    returns an error (mode 1), returns without a response (2) or answers with a
+    truncated reply, which is not stored (3). *)
+Inductive lop := LAsk (n : N) | LAge (n : N) | LAskF (n mode : N).
 
 (** [OAsk qn owners ip sync bg]: the reply's question name, the owner names of its
     answer records, the name the address in it belongs to, whether the upstream
@@ -123,6 +128,7 @@ Fixpoint hops_ops (i : N) (l : list hop) : list op :=
     let r := resp_of kind q i in
     Query q r (if replace then r else None) :: hops_ops (i + 1) t
   | HFlush :: t => Flush :: hops_ops (i + 1) t
+  | _ :: t => hops_ops (i + 1) t
   end.
 
 Definition hobs_of (q : qmsg) (o : outcome) : option (N * bool * N * N) :=
@@ -135,10 +141,28 @@ Definition hobs_of (q : qmsg) (o : outcome) : option (N * bool * N * N) :=
   | _ => None
   end.
 
+(** A history with dumps: the dump is the store's content, loading it puts every
+    dumped entry (back) under its key ([reload]). *)
+Fixpoint hist_run (i : N) (st dump : store) (l : list hop) : list outcome :=
+  match l with
+  | [] => []
+  | HQ d kind replace :: t =>
+    let q := qd_msg d in
+    let r := resp_of kind q i in
+    let '(st', out) := step st (Query q r (if replace then r else None)) in
+    out :: hist_run (i + 1) st' dump t
+  | HFlush :: t => Bypass :: hist_run (i + 1) (fst (step st Flush)) dump t
+  | HDump :: t => Bypass :: hist_run (i + 1) st st t
+  | HReload fresh :: t => Bypass :: hist_run (i + 1) (reload fresh dump st) dump t
+  end.
+
+Definition has_dump (l : list hop) : bool :=
+  existsb (fun o => match o with HDump | HReload _ => true | _ => false end) l.
+
 Fixpoint hist_obs (ops : list hop) (outs : list outcome) : list (option (N * bool * N * N)) :=
   match ops, outs with
   | HQ d _ _ :: ops', o :: outs' => hobs_of (qd_msg d) o :: hist_obs ops' outs'
-  | HFlush :: ops', _ :: outs' => None :: hist_obs ops' outs'
+  | _ :: ops', _ :: outs' => None :: hist_obs ops' outs'
   | _, _ => []
   end.
 
@@ -197,32 +221,43 @@ Definition resp_name (v : resp) : N :=
     hit followed by the background update — an execution of the SAME query (the
     context is copied when the update is started) that stores what the upstream
     says — and without lazy cache a removal followed by a miss. *)
+Definition lop_ask (o : lop) : option (N * N) :=
+  match o with LAsk n => Some (n, 0) | LAskF n m => Some (n, m) | LAge _ => None end.
+
 Fixpoint lazy_run (lazy : bool) (rules : list (N * N)) (st : store) (stale : list N)
          (ops : list lop) : list lobs * store :=
   match ops with
   | [] => ([], st)
-  | LAge n :: t =>
-    let present := match lookup (lkey n) st with Some _ => true | None => false end in
-    let '(o, st') := lazy_run lazy rules st (if present then n :: stale else stale) t in
-    (OAge present :: o, st')
-  | LAsk n :: t =>
-    let k := ltarget rules n in
-    let is_stale := existsb (N.eqb k) stale in
-    let st0 := if is_stale && negb lazy then fst (step st (Drop (lkey k))) else st in
-    let '(st1, out) := step st0 (Query (lq k) (lresp k) None) in
-    let st2 := if is_stale && lazy then fst (step st1 (Query (lq k) (lresp k) (lresp k))) else st1 in
-    let served := match out with Hit v => Some v | _ => lresp k end in
-    let ob := match served with
-              | Some v =>
-                let vn := resp_name v in
-                OAsk (if vn =? k then n else vn)
-                     ((if k =? n then [] else [n]) ++ [r_id v]) (r_id v)
-                     (match out with Hit _ => false | _ => true end)
-                     (if is_stale && lazy then Some k else None)
-              | None => OAge false
-              end in
-    let '(o, st') := lazy_run lazy rules st2 (filter (fun x => negb (x =? k)) stale) t in
-    (ob :: o, st')
+  | o :: t =>
+    match lop_ask o with
+    | None =>
+      let n := match o with LAge n => n | _ => 0 end in
+      let present := match lookup (lkey n) st with Some _ => true | None => false end in
+      let '(ob, st') := lazy_run lazy rules st (if present then n :: stale else stale) t in
+      (OAge present :: ob, st')
+    | Some (n, mode) =>
+      let k := ltarget rules n in
+      let is_stale := existsb (N.eqb k) stale in
+      let refresh := is_stale && lazy in
+      let lands := mode =? 0 in
+      let st0 := if is_stale && negb lazy then fst (step st (Drop (lkey k))) else st in
+      let '(st1, out) := step st0 (Query (lq k) (lresp k) None) in
+      let st2 := if refresh && lands then fst (step st1 (Query (lq k) (lresp k) (lresp k))) else st1 in
+      let served := match out with Hit v => Some v | _ => lresp k end in
+      let ob := match served with
+                | Some v =>
+                  let vn := resp_name v in
+                  OAsk (if vn =? k then n else vn)
+                       ((if k =? n then [] else [n]) ++ [r_id v]) (r_id v)
+                       (match out with Hit _ => false | _ => true end)
+                       (if refresh then Some k else None)
+                | None => OAge false
+                end in
+      (* a refresh that does not land leaves the entry as it is: still expired *)
+      let stale' := if refresh && negb lands then stale else filter (fun x => negb (x =? k)) stale in
+      let '(obs, st') := lazy_run lazy rules st2 stale' t in
+      (ob :: obs, st')
+    end
   end.
 
 Fixpoint held_from (st : store) (i : N) (m : nat) : list (option (N * list N)) :=
@@ -370,7 +405,8 @@ Definition agree (c : case) : bool :=
     Bool.eqb hit12 (match m12 with Hit _ => true | _ => false end)
     && Bool.eqb hit21 (match m21 with Hit _ => true | _ => false end)
   | CHist ops obs =>
-    list_eqb hobs_eqb (hist_obs ops (snd (run (hops_ops 0 ops)))) obs
+    list_eqb hobs_eqb
+      (hist_obs ops (if has_dump ops then hist_run 0 [] [] ops else snd (run (hops_ops 0 ops)))) obs
   | CCtx d seen k =>
     let q := qd_msg d in
     list_eqb (fun a b => match a, b with
@@ -412,7 +448,7 @@ Definition same_qf_b (q1 q2 : qmsg) : bool :=
 Definition is_knone (k : kobs) : bool := match k with KNone => true | _ => false end.
 
 Definition hop_q (o : hop) : option qmsg :=
-  match o with HQ d _ _ => Some (qd_msg d) | HFlush => None end.
+  match o with HQ d _ _ => Some (qd_msg d) | _ => None end.
 
 (** Every served answer was created by an earlier step whose query has the same
     question and flags as the one it is served to. *)
@@ -448,6 +484,9 @@ Fixpoint lazy_sound (rules : list (N * N)) (ops : list lop) (obs : list lobs) : 
   match ops, obs with
   | [], [] => true
   | LAsk n :: ops', OAsk qn owners ip _ _ :: obs' =>
+    (qn =? n) && (hd 99 owners =? n) && (last owners 99 =? rule_target rules n)
+    && (ip =? rule_target rules n) && lazy_sound rules ops' obs'
+  | LAskF n _ :: ops', OAsk qn owners ip _ _ :: obs' =>
     (qn =? n) && (hd 99 owners =? n) && (last owners 99 =? rule_target rules n)
     && (ip =? rule_target rules n) && lazy_sound rules ops' obs'
   | LAge _ :: ops', OAge _ :: obs' => lazy_sound rules ops' obs'
